@@ -10,7 +10,7 @@ from typing import Dict, Iterable, List, Optional, Tuple
 
 from ..core import Collector, norm, AnchorMissing
 from ..inline import inlined_info
-from ..strval import skeletons, show, HOLE, STAR, UNK
+from ..strval import skeletons, show, show_labelled, HOLE, STAR, UNK
 
 H = '◦'
 
@@ -33,7 +33,7 @@ def module_str_consts(idx, modname: str) -> Dict[str, str]:
 
 
 def form_obligation(ctx, col: Collector, rule: str, mod: str, fname: str, pattern: str, what: str, keep: Iterable[str] = (), flags=re.I,
-                    transparent: Iterable[str] = (), require_some: Optional[str] = None, pairs=()) -> None:
+                    transparent: Iterable[str] = (), require_some: Optional[str] = None, pairs=(), labels=(), order=(), always=(), some=()) -> None:
     """One obligation `<fname>:form`: every skeleton of the function matches `pattern` (a regex over the squashed skeleton in which
     a data hole is written ◦ and a repeated hole ◦*)."""
     idx = ctx.idx
@@ -73,6 +73,70 @@ def form_obligation(ctx, col: Collector, rule: str, mod: str, fname: str, patter
             col.ok(rule, pc, f'{fname}: the `{pname}` part is emitted under the right condition on {nhit} paths', node=fi0.node, file=fi0.file)
         else:
             col.unk(rule, pc, f'{fname}: no text form contains the `{pname}` part', node=fi0.node, file=fi0.file)
+    # (c) which data stands where - judged on the holes' labels (the expression each hole holds):
+    #     labels: a hole holding <regex> is present exactly on the paths on which <predicate> holds;
+    #     always: every text form contains a hole holding <regex>;
+    #     order : the holes holding r1, r2, ... appear in this order whenever they all appear
+    lab = [(lits, _squash(show_labelled(sk))) for lits, sk in sks]
+    followable = [(lits, t) for lits, t in lab if '?⟨' not in t and re.sub(r'[◦*\s]|⟨[^⟩]*⟩', '', t)]
+    for lname, lrx, pred, iff, lmsg in labels:
+        rc_ = re.compile('⟨[^⟩]*(' + lrx + ')[^⟩]*⟩')
+        viol = None
+        nhit = 0
+        for lits, t in followable:
+            has = bool(rc_.search(t))
+            holds = pred(lits)
+            nhit += has
+            if has and holds is False:
+                viol = viol or t
+            if iff and not has and holds is True:
+                viol = viol or t
+        lc = f'{fname}:data:{lname}'
+        if viol:
+            col.bad(rule, lc, f'{fname}: {lmsg} (text form `{_squash(re.sub("⟨[^⟩]*⟩", "", viol))[:80]}`)', node=fi0.node, file=fi0.file)
+        elif nhit:
+            col.ok(rule, lc, f'{fname}: `{lname}` is written exactly when it is set ({nhit} text forms)', node=fi0.node, file=fi0.file)
+        else:
+            col.unk(rule, lc, f'{fname}: no text form holds `{lname}` in a form this rule can see', node=fi0.node, file=fi0.file)
+    for aname, arx in always:
+        rc_ = re.compile('⟨[^⟩]*(' + arx + ')[^⟩]*⟩')
+        missing = [t for _, t in followable if not rc_.search(t)]
+        ac = f'{fname}:data:{aname}'
+        if not followable:
+            col.unk(rule, ac, f'{fname}: no text form could be followed', node=fi0.node, file=fi0.file)
+        elif missing:
+            col.bad(rule, ac, f'{fname} can return `{_squash(re.sub("⟨[^⟩]*⟩", "", missing[0]))[:90]}`, which does not contain {aname}: that part of the model is missing from '
+                    f'the rendered text', node=fi0.node, file=fi0.file)
+        else:
+            col.ok(rule, ac, f'every text form of {fname} contains {aname}', node=fi0.node, file=fi0.file)
+    for sname, srx in some:
+        rc_ = re.compile('⟨[^⟩]*(' + srx + ')[^⟩]*⟩')
+        sc = f'{fname}:data:{sname}'
+        if any(rc_.search(t) for _, t in lab):
+            col.ok(rule, sc, f'{fname} writes {sname}', node=fi0.node, file=fi0.file)
+        elif followable and len(followable) == len(lab):
+            col.bad(rule, sc, f'no text form of {fname} contains {sname} (e.g. `{_squash(re.sub("⟨[^⟩]*⟩", "", followable[-1][1]))[:90]}`): that part of the model is never '
+                    f'written', node=fi0.node, file=fi0.file)
+        else:
+            col.unk(rule, sc, f'{fname}: {sname} not found, but not every text form could be followed', node=fi0.node, file=fi0.file)
+    for oname, rxs in order:
+        rcs = [re.compile('⟨[^⟩]*(' + r + ')[^⟩]*⟩') for r in rxs]
+        viol = None
+        nall = 0
+        for _, t in followable:
+            pos = [m.start() if (m := rc_.search(t)) else None for rc_ in rcs]
+            if any(x is None for x in pos):
+                continue
+            nall += 1
+            if pos != sorted(pos):
+                viol = viol or t
+        oc = f'{fname}:order:{oname}'
+        if viol:
+            col.bad(rule, oc, f'{fname} writes {oname} in the wrong order / on the wrong side: `{viol[:200]}`', node=fi0.node, file=fi0.file)
+        elif nall:
+            col.ok(rule, oc, f'{fname}: {oname} appear in the required order in {nall} text forms', node=fi0.node, file=fi0.file)
+        else:
+            col.unk(rule, oc, f'{fname}: no text form contains all of {oname}', node=fi0.node, file=fi0.file)
     if not bad and require_some is not None and not any(re.compile(require_some, flags).fullmatch(s) for s in shown):
         if any('?' in s or s == H for s in shown):
             col.unk(rule, cons, f'{fname}: no text form with the statement itself could be followed', node=fi0.node, file=fi0.file)
